@@ -3,7 +3,7 @@
    "for all big-integer operands and all word operands in the C type's range, the body = the Z operation".
    The statements themselves are the Definitions `..._exact` in the Proofs*.v files. *)
 From Coq Require Import ZArith.
-From C01 Require Import Model Model2 Model3 ProofsBase ProofsAdd ProofsSub ProofsMul ProofsCmp ProofsBits ProofsGcd ProofsPow.
+From C01 Require Import Model Model2 Model3 ProofsBase ProofsAdd ProofsSub ProofsMul ProofsCmp ProofsBits ProofsGcd ProofsPow ProofsLoops.
 Local Open Scope Z_scope.
 
 Theorem C01_constructors_exact : Ctor_exact.            Proof. exact ctor_exact. Qed.
@@ -58,6 +58,14 @@ Theorem C01_modular_inverse_exact : Inv_exact.           Proof. exact inv_exact.
 Print Assumptions C01_modular_inverse_exact.
 Theorem C01_roots_exact : Roots_exact.                   Proof. exact roots_exact. Qed.
 Print Assumptions C01_roots_exact.
+(* operations that are loops of givaro's own: logp (2 <= p <= a: p^r <= a < p^(r+1)), Integer(vect_t) = the base-2^64 value of the limbs,
+   operator vect_t followed by Integer(vect_t) = |x| *)
+Theorem C01_logp_and_limb_vector_exact : Loops_exact.    Proof. exact loops_exact. Qed.
+Print Assumptions C01_logp_and_limb_vector_exact.
+(* pp(P,Q), P <> 0: a divisor of P coprime to Q (termination within the fuel included); FULL statement not proved: pp is the LARGEST
+   such divisor, i.e. additionally P / pp(P,Q) divides a power of Q *)
+Theorem C01_pp_coprime_divisor_partial : Pp_coprime_divisor.   Proof. exact pp_coprime_divisor. Qed.
+Print Assumptions C01_pp_coprime_divisor_partial.
 (* the bodies as they were before the repairs frag/C01.fix-2/3/4.diff do NOT satisfy their clause (witnesses) *)
 Theorem C01_absCompare_i32_before_fix2_refuted :
   exists a b, in_i32 b /\ absCompare_i32_tree a b <> Z.sgn (Z.abs a - Z.abs b).   Proof. exact absCompare_i32_tree_refuted. Qed.
